@@ -9,6 +9,22 @@ pub static PANICS_SEEN: AtomicU64 = AtomicU64::new(0);
 pub fn ensure_installed() {
     static INIT: Once = Once::new();
     INIT.call_once(|| {
+        // glibc malloc: 16 simulator threads allocating and freeing 32 KiB EVM stacks make the
+        // per-thread arenas grow and trim continuously (mprotect/madvise under the process-wide
+        // mmap lock). Keep freed memory in the arenas instead.
+        unsafe extern "C" {
+            fn mallopt(param: i32, value: i32) -> i32;
+        }
+        unsafe {
+            mallopt(-1, 1 << 30); // M_TRIM_THRESHOLD
+            mallopt(-2, 64 << 20); // M_TOP_PAD
+            mallopt(-3, 1 << 30); // M_MMAP_THRESHOLD
+        }
+        // Bundle extraction runs on rayon outside the controlled schedule; keep its global pool small
+        // so idle rayon workers do not spin next to 16 simulator threads. (The result must not depend
+        // on the pool size; VERIF_RAYON_THREADS varies it.)
+        let rayon_threads = std::env::var("VERIF_RAYON_THREADS").ok().and_then(|s| s.parse().ok()).unwrap_or(2usize);
+        let _ = rayon::ThreadPoolBuilder::new().num_threads(rayon_threads).build_global();
         // Let the engine install (and forever forget about) its own hook first: run one trivial
         // execution, then replace the hook with ours.
         let runner = shuttle_engine::Runner::new(Warmup(false), {
